@@ -1,5 +1,127 @@
-(* Props/C06.v — placeholder while the model is validated *)
-From PV Require Import Base.Prelude Cmd.Commands.
-Theorem C06_placeholder : True.
-Proof. exact I. Qed.
-Print Assumptions C06_placeholder.
+(* Props/C06.v — Every input is answered: no hang, no internal error, no
+   silent drop.  Statements only; proofs in Cmd/*Proofs.v.
+
+   The model (Cmd/Grammar.v, Cmd/Commands.v) transcribes pymap's command
+   parser with an explicit exception channel: a parser returns a value,
+   NotParseable, a ParsingInterrupt (continuation wanted), another exception
+   (PExc: ValueError family, RecursionError), or "out of fuel".  Python's
+   while-loops are [loop F step] with F = 1 + the number of bytes readable
+   (line and continuations); "never out of fuel" is the statement that no loop
+   of the parser spins on any input. *)
+From PV Require Import Base.Prelude Cmd.CLex Cmd.Parser Cmd.ParserProofs Cmd.Utf7Ok
+     Cmd.Grammar Cmd.GrammarProofs Cmd.Commands Cmd.CommandsProofs.
+
+(* Commands.parse, for every line, every list of continuation data, every
+   configuration (max_append_len, recursion budget) and every behaviour of the
+   standard-library oracles: the result is a command, an InvalidCommand
+   (tagged BAD) or a continuation request — never an escaped exception, never
+   a loop that does not end. *)
+Theorem C06_parse_total : forall o cfg line conts,
+  oracle_total o ->
+  match parse_command o cfg line conts with
+  | OCmd _ _ _ | OInvalid _ _ | OInterrupt _ => True
+  | OExc _ | OFuel | OUnk => False
+  end.
+Proof. exact parse_command_total. Qed.
+Print Assumptions C06_parse_total.
+
+(* The same for every argument parser on its own, as a statement about the
+   measure: started with fewer than F readable bytes it does not run out of
+   fuel, and it never gives back more than it was given. *)
+Theorem C06_args_parsers_good : forall o F d pr k,
+  oracle_total o -> gd F (fun _ => false) (p_args o F d pr k).
+Proof. intros o F d pr k Ho. exact (p_args_wgd o Ho F d pr k). Qed.
+Print Assumptions C06_args_parsers_good.
+
+(* The guard added to Commands.parse (fix 0e1b5fb) is what makes
+   C06_parse_total true: the argument parsers do raise ValueError /
+   RecursionError. *)
+Theorem C06_guard_needed_value_error :
+  exists line, p_args (fun _ _ => 0%N) 100 10
+                 {| pa_append := false; pa_max_append := None; pa_allow_cont := true;
+                    pa_uid := false; pa_charset := None |} KSearch [] line = PExc XValue.
+Proof. exact args_raise_value_error. Qed.
+Print Assumptions C06_guard_needed_value_error.
+
+Theorem C06_guard_needed_recursion_error :
+  exists line, p_args (fun _ _ => 0%N) 100 2
+                 {| pa_append := false; pa_max_append := None; pa_allow_cont := true;
+                    pa_uid := false; pa_charset := None |} KSearch [] line = PExc XRecursion.
+Proof. exact args_raise_recursion_error. Qed.
+Print Assumptions C06_guard_needed_recursion_error.
+
+(* The re-parse loop of read_command: it ends with a command object after at
+   most one request per continuation the client supplies, or it is waiting for
+   the continuation it asked for; it never ends on an interrupt it did not
+   ask about and never runs out of iterations.
+   Partial with respect to the planned bound "1 + number of synchronizing
+   literals in the input": that bound needs the additional fact that an
+   abandoned alternative never reaches the same literal again, which is not
+   proved here (the correspondence run checks on every case that the server
+   asks at most once per synchronizing literal of the data sent). *)
+Theorem C06_reparse_terminates_partial : forall o cfg line supplied,
+  match read_command (S (length supplied)) o cfg line supplied 0 with
+  | RCDone out asked =>
+    asked <= length supplied /\ match out with OInterrupt _ => False | _ => True end
+  | RCWaiting asked _ => asked = S (length supplied)
+  | RCFuel => False
+  end.
+Proof. exact read_command_terminates. Qed.
+Print Assumptions C06_reparse_terminates_partial.
+
+(* _run_state: in every connection state, with any count of previous BADs,
+   for every line and continuation data, if the command bodies keep their
+   contract (return a response, or raise ResponseError / AuthenticationError /
+   TimeoutError), the responses contain a tagged completion carrying the
+   line's tag ("*" when the line has none) or consist of the continuation
+   requests the server is waiting on; there is no [SERVERBUG] BYE, no
+   truncated response, and no close without BYE. *)
+Theorem C06_answered : forall o cfg st bad exec line supplied,
+  oracle_total o -> exec_ok exec ->
+  answered (line_tag line) (fst (respond o cfg st bad exec line supplied)).
+Proof. exact respond_answered. Qed.
+Print Assumptions C06_answered.
+
+(* The contract is necessary.  A body raising anything else is answered with
+   the internal-error BYE ... *)
+Theorem C06_answered_refuted_backend_exception :
+  exists o cfg st bad exec line supplied,
+    oracle_total o /\
+    existsb is_serverbug (fst (respond o cfg st bad exec line supplied)) = true.
+Proof. exact respond_unanswered_other. Qed.
+Print Assumptions C06_answered_refuted_backend_exception.
+
+(* ... and a response whose serialisation raises (open finding C06-F9: FETCH
+   BINARY of a part with an unknown Content-Transfer-Encoding or malformed
+   base64) closes the connection with neither tagged completion nor BYE. *)
+Theorem C06_answered_refuted_write_failure :
+  exists o cfg st bad exec line supplied,
+    oracle_total o /\
+    let rs := fst (respond o cfg st bad exec line supplied) in
+    existsb is_close rs = true /\ existsb is_bye rs = false /\
+    ~ (exists r, In r rs /\ tagged_with (line_tag line) r).
+Proof. exact respond_unanswered_write_failure. Qed.
+Print Assumptions C06_answered_refuted_write_failure.
+
+(* ManageSieve: Command.parse yields a command or the "Bad command" answer,
+   for every line and every behaviour of the UTF-8 decoder. *)
+Theorem C06_sieve_parse_total : forall utf8_ok line,
+  match sieve_parse utf8_ok line with SOk _ | SBad => True | _ => False end.
+Proof. exact sieve_parse_total. Qed.
+Print Assumptions C06_sieve_parse_total.
+
+(* the hypotheses are satisfiable: a total oracle and a contract-keeping
+   backend exist, and the theorem says something about a real line *)
+Example C06_example :
+  let o : oracle := fun _ _ => 1%N in
+  let exec : ckind -> exec_result := fun _ => EReturn OK in
+  oracle_total o /\ exec_ok exec /\
+  fst (respond o {| c_max_append := None; c_depth := 50 |} Selected 0 exec
+         (* "a SEARCH SUBJECT {1}\r\n" with the continuation "x\r\n" *)
+         [97;32;83;69;65;82;67;72;32;83;85;66;74;69;67;84;32;123;49;125;13;10]%N
+         [[120;13;10]%N])
+  = [RContinuation; RTagged [97]%N OK].
+Proof.
+  split; [intros k v; right; left; reflexivity|].
+  split; [intro k; split; discriminate|]. vm_compute. reflexivity.
+Qed.
